@@ -673,7 +673,7 @@ func (h *c20H) execImport(c c20Case, in string, res *c20Result) {
 var c20DigestOps = []string{
 	"blob-get", "blob-head", "blob-put", "blob-put-nosize", "blob-delete", "blob-copy",
 	"manifest-get", "manifest-get-desc", "manifest-head", "manifest-put-ref", "manifest-put-desc", "manifest-put-subject",
-	"manifest-delete", "manifest-delete-wm", "referrer-list", "image-copy-reg",
+	"manifest-delete", "manifest-delete-wm", "manifest-delete-wm-desc", "referrer-list", "image-copy-reg",
 	"idx-get", "idx-head", "idx-delete", "idx-gc", "idx-copy",
 }
 var c20TagOps = []string{"tag-delete", "manifest-put-tag", "manifest-get-tag"}
@@ -846,6 +846,15 @@ func (h *c20H) execLayout(c c20Case, in string, res *c20Result) {
 		if was && !present(digest.Digest(in)) {
 			res.note = "deleted"
 		}
+	case "manifest-delete-wm-desc":
+		// a well-formed reference (the fixture manifest); the manifest handed over with it is built from
+		// an untrusted descriptor alone, so the digest under test sits in that manifest's descriptor
+		mv, err := manifest.New(manifest.WithDesc(descriptor.Descriptor{MediaType: mediatype.OCI1Manifest, Digest: digest.Digest(in), Size: int64(len(h.fixMan))}))
+		if err != nil {
+			res.skipped = err.Error()
+			return
+		}
+		res.err = rc.ManifestDelete(ctx, r.SetDigest(h.fixManD.Digest.String()), regclient.WithManifest(mv))
 	case "tag-delete":
 		res.err = rc.TagDelete(ctx, r.SetTag(in))
 	case "referrer-list":
